@@ -275,8 +275,18 @@ def state_diff(a, b):
     return sorted(str(k) for k in set(da) | set(db) if da.get(k) != db.get(k))
 
 
+def _ref_op(name):
+    return Env().call(name)
+
+
+def tojson_back(x):
+    """observations travel as JSON from the forked reference processes: lists back to tuples"""
+    return tuple(tojson_back(i) for i in x) if isinstance(x, list) else x
+
+
 class CHECK(Check):
     pid = 'C20'
+    fork_per_case = True     # every case starts from the clean state this process has after setup (imports only)
     level = 'model_checking'
     case_timeout = 1500
     assumptions = ['scheduling points are Python function boundaries of repository code (plus lines of four named functions at bound 1); interleavings inside '
@@ -304,11 +314,9 @@ class CHECK(Check):
         self.rops = histories.render_ops()
         self.rref = histories.render_references(self.rops)
         # warm imports (SLY builds the tables at import time; that must not run under the scheduler)
-        env = Env()
-        self.reference = {}
-        for name in OPS:
-            reset_lazy_globals()
-            self.reference[name] = Env().call(name)
+        # reference of every operation: computed in a process of its own, forked from this one (which never calls the library itself)
+        names = list(OPS)
+        self.reference = dict(zip(names, [tojson_back(x) for x in histories.fork_map(_ref_op, names)]))
 
     def cases(self):
         out = []
